@@ -180,3 +180,17 @@ func init() {
 		propMeta[id] = m
 	}
 }
+
+// wave 9 (second held-out wave; additions made after the measurement)
+var addedRulesW9 = map[string]string{
+	"C05": " One request kind (openid and local both enabled): somebody who has just signed in at the web front end presents the browser's session cookie next to Basic credentials (wrong, empty, another user's, or correct password): only the password decides.",
+	"C07": " 1 run in 8 (no other special situation) starts after somebody else asked 17-40 times for an allowed machine that is down (every attempt answered with an error); the run's tunnels to healthy hosts must be unaffected.",
+}
+
+func init() {
+	for id, a := range addedRulesW9 {
+		m := propMeta[id]
+		m.Rule += a
+		propMeta[id] = m
+	}
+}
